@@ -1,8 +1,9 @@
 SPECIFICATION Spec
 CONSTANTS
-  MaxBytes = 2
+  MaxBytes = 1
   MaxItems = 2
   MaxRaw = 3
+  Deep = FALSE
   Modes = {"value", "blocks", "bytes", "ocf"}
 INVARIANTS T_Encodable T_RoundTrip T_SelfDelimiting T_Typed T_Table T_Blocks T_Bytes T_Ocf
 CHECK_DEADLOCK FALSE
